@@ -23,6 +23,8 @@ structure Cfg where
   coerceCond : String × String × String      -- `try_coerce_to`: (cmp op, left, right)
   methodTemplate : String
   methods : List (String × String × String)  -- (guppy type, method, implementation)
+  setitemIndexSlot : String                  -- index slot of the expected `__setitem__` signature in `check_place_assignable`:
+                                             -- "fresh" (a new type variable) | "item.ty" (the index expression's own type)
 
 def enumName : Kind → String
   | .nat => "Nat" | .int => "Int" | .float => "Float"
@@ -120,6 +122,28 @@ def operand (cfg : Cfg) (e a : Kind) : Option (Kind × Out × Out) :=
     | .coerced i => some (a, .coerced i, .same)
     | .stuck w => some (a, .stuck w, .same)
     | .mismatch => none
+
+/-! ## subscript places `p[i]` (arrays: `__getitem__(self, idx: int)`, `__setitem__(self, idx: int, value)`) -/
+
+/-- reading `p[i]` with an index of kind `idx`: the implicit `__getitem__` call checks the index argument against `int` -/
+def indexRead (cfg : Cfg) (idx : Kind) : Out := against cfg idx .int
+
+/-- using `p[i]` as an ASSIGNABLE place (`p[i] = v`, `p[i] += v`, lending `p[i]` to a borrowing function):
+    `check_place_assignable` first unifies an expected `__setitem__` signature with the method's — its index slot is a fresh type
+    variable (unifies with anything) or, if written that way, the index expression's own type (must then be exactly the parameter
+    type `int`, otherwise `BadProtocolError`) — and then type-checks the implicit call, where the index argument is checked
+    against `int` like any argument. -/
+def indexWrite (cfg : Cfg) (idx : Kind) : Out :=
+  if cfg.setitemIndexSlot == "fresh" then against cfg idx .int
+  else if cfg.setitemIndexSlot == "item.ty" then (if idx = .int then against cfg idx .int else .mismatch)
+  else .stuck "setitem signature"
+
+/-- an assignable subscript place is accepted iff both the read and the write-back type-check -/
+def indexPlace (cfg : Cfg) (idx : Kind) : Out :=
+  match indexRead cfg idx with
+  | .mismatch => .mismatch
+  | .stuck w => .stuck w
+  | _ => indexWrite cfg idx
 
 /-! ## what an inserted coercion does to the value -/
 
